@@ -24,8 +24,50 @@ PLAN = {
     "src/board/serialize.rs": ["C07"],
     "src/board/boardbuilder.rs": ["C07", "C04"],
     "src/board/zkey.rs": ["C04", "C05"],
+    "src/board/piece/pawn.rs": ["C01", "C06"],
+    "src/board/piece/king.rs": ["C01", "C06"],
+    "src/board/piece/knight.rs": ["C01", "C06"],
+    "src/board/piece/bishop.rs": ["C01", "C06"],
+    "src/board/piece/rook.rs": ["C01", "C06"],
+    "src/board/piece/queen.rs": ["C01", "C06"],
+    "src/board/piece.rs": ["C01", "C06"],
+    "src/board/piece_bitboards.rs": ["C07", "C02", "C17"],
+    "src/board/piece_bitboards/builder.rs": ["C07"],
+    "src/board/ply/builder.rs": ["C01", "C03"],
+    "src/board/ply.rs": ["C01", "C08", "C14"],
+    "src/evaluate/simple_evaluator.rs": ["C17"],
+    "src/board/square.rs": ["C01", "C14"],
+    "src/board/bitboard.rs": ["C06", "C01"],
 }
 SKIP = re.compile(r"^\s*(let\b|use\b|pub\b|const\b|static\b|type\b|#|//|fn\b|impl\b|mod\b|struct\b|enum\b|trait\b|assert|debug_assert|\}|\{)")
+
+
+OPS = [(" <= ", " < "), (" < ", " <= "), (" >= ", " > "), (" > ", " >= "), (" == ", " != "), (" != ", " == "), (" && ", " || "), (" || ", " && "), (" + 1", " + 2"), (" - 1", " - 2")]
+
+
+def op_candidates(files):
+    """(file, line index, original line, replacement line) for one relational / logical / off-by-one replacement per
+    occurrence (the classic mutation operators)."""
+    out = []
+    for f in files:
+        lines = open(os.path.join("/repo", f)).read().split("\n")
+        in_tests = False
+        for i, ln in enumerate(lines):
+            if "#[cfg(test)]" in ln:
+                in_tests = True
+            if in_tests or ln.strip().startswith(("//", "#", "use ", "assert", "debug_assert")) or "->" in ln and "fn " in ln:
+                continue
+            for a, b_ in OPS:
+                start = 0
+                while True:
+                    j = ln.find(a, start)
+                    if j < 0:
+                        break
+                    # not inside a generic / arrow / string
+                    if ln[max(0, j - 1):j + 3].strip() not in ("->", "=>") and ln.count('"', 0, j) % 2 == 0:
+                        out.append((f, i, ln.strip(), ln[:j] + b_ + ln[j + len(a):]))
+                    start = j + len(a)
+    return out
 
 
 def candidates(files):
@@ -46,7 +88,7 @@ def candidates(files):
 
 
 def run_one(arg):
-    f, i, text = arg
+    f, i, text = arg[:3]
     from rules import facts as F, mir, engine, inline
     t0 = time.time()
     tmp = tempfile.mkdtemp(prefix="rce-del-")
@@ -55,13 +97,16 @@ def run_one(arg):
         copy_tree(wt)
         p = os.path.join(wt, f)
         lines = open(p).read().split("\n")
-        del lines[i]
+        if len(arg) > 3:
+            lines[i] = arg[3]
+        else:
+            del lines[i]
         open(p, "w").write("\n".join(lines))
         out = os.path.join(tmp, "facts.json")
         try:
             F.run_driver(wt, out, release=False)
         except F.BuildError:
-            return dict(file=f, line=i + 1, text=text, status="nobuild", s=round(time.time() - t0, 1))
+            return dict(file=f, line=i + 1, text=text, new=arg[3].strip() if len(arg) > 3 else None, status="nobuild", s=round(time.time() - t0, 1))
         facts = json.load(open(out))
         inline.apply(facts)
         ix = mir.Index(facts)
@@ -72,7 +117,7 @@ def run_one(arg):
             fired += [k.key for k in ctx.insts if not k.ok and not k.note]
             if fired:
                 break
-        return dict(file=f, line=i + 1, text=text, status="caught" if fired else "SURVIVED", fired=fired[:2], s=round(time.time() - t0, 1))
+        return dict(file=f, line=i + 1, text=text, new=arg[3].strip() if len(arg) > 3 else None, status="caught" if fired else "SURVIVED", fired=fired[:2], s=round(time.time() - t0, 1))
     finally:
         shutil.rmtree(tmp, ignore_errors=True)
 
@@ -84,7 +129,11 @@ def suite_one(m):
         copy_tree(wt)
         p = os.path.join(wt, m["file"])
         lines = open(p).read().split("\n")
-        del lines[m["line"] - 1]
+        if m.get("new") is not None:
+            indent = lines[m["line"] - 1][:len(lines[m["line"] - 1]) - len(lines[m["line"] - 1].lstrip())]
+            lines[m["line"] - 1] = indent + m["new"]
+        else:
+            del lines[m["line"] - 1]
         open(p, "w").write("\n".join(lines))
         r = subprocess.run("timeout 600 cargo test --workspace --no-fail-fast --offline 2>&1 | grep 'test result' | head -3", shell=True, cwd=wt, capture_output=True, text=True,
                            env=dict(os.environ, CARGO_TARGET_DIR=os.path.join(tmp, "target")))
@@ -99,7 +148,7 @@ def main(argv):
     jobs = int(argv[argv.index("--jobs") + 1]) if "--jobs" in argv else 8
     files = argv[argv.index("--files") + 1].split(",") if "--files" in argv else sorted(PLAN)
     out = argv[argv.index("--out") + 1] if "--out" in argv else "/tmp/deletion_sweep.json"
-    cands = candidates(files)
+    cands = op_candidates(files) if "--ops" in argv else candidates(files)
     print("%d candidate lines in %d files" % (len(cands), len(files)), flush=True)
     with multiprocessing.Pool(jobs) as pool:
         res = list(pool.imap_unordered(run_one, cands, chunksize=1))
@@ -112,7 +161,7 @@ def main(argv):
         surv.sort(key=lambda r: (r["file"], r["line"]))
     json.dump({"all": res, "survivors": surv}, open(out, "w"), indent=1)
     for r in surv:
-        print("%-28s %4d  %-16s %s" % (r["file"], r["line"], r.get("suite", ""), r["text"][:110]))
+        print("%-28s %4d  %-16s %s" % (r["file"], r["line"], r.get("suite", ""), (r["new"] if r.get("new") else r["text"])[:110]))
     return 0
 
 
